@@ -21,10 +21,23 @@ type GA<E, N> = GenericArray<E, N>;
 
 include!("../history_gen.rs");
 
-/// collect from `it` into an array of length n; `hide` strips the size hint first
+thread_local! {
+    /// how a "hidden" source answers size_hint(): 0 = (0, None); 1 = claims exactly the target
+    /// length; 2 = (0, Some(target)); 3 = (target, None).  None of these rules the target out, so
+    /// the outcome must follow the items actually delivered.
+    static HINT_MODE: std::cell::Cell<u8> = const { std::cell::Cell::new(0) };
+}
+
+/// collect from `it` into an array of length n; `hide` replaces the size hint first
 fn collect_from<E>(it: &mut dyn Iterator<Item = E>, n: usize, boxed: bool, hide: bool) -> Option<Arr<E>> {
     if hide {
-        let mut h = vkit::script::NoHint(it);
+        let claim = match HINT_MODE.with(|m| m.get()) {
+            1 => (n, Some(n)),
+            2 => (0, Some(n)),
+            3 => (n, None),
+            _ => (0, None),
+        };
+        let mut h = vkit::script::ClaimHint(vkit::script::NoHint(it), claim);
         if boxed { box_try_from_iter(&mut h, n) } else { arr_try_from_iter(&mut h, n) }
     } else if boxed {
         box_try_from_iter(it, n)
@@ -270,8 +283,10 @@ impl<E: Elem + Clone + Default> Pool<E> {
                                 // collect the rest into an array of exactly the right length
                                 let n = want.len();
                                 let boxed = rng.chance(1, 2);
-                                self.note("iter.collect_right", format!("(n={n},boxed={boxed})"));
-                                let a = if boxed { it_collect_boxed(it, n) } else { it_collect(it, n) };
+                                let mode = rng.below(6) as u8;
+                                HINT_MODE.with(|m| m.set(mode));
+                                self.note("iter.collect_right", format!("(n={n},boxed={boxed},claim_mode={mode})"));
+                                let a = if mode < 4 { it_collect_hidden(it, n, boxed) } else if boxed { it_collect_boxed(it, n) } else { it_collect(it, n) };
                                 let a = a.ok_or("ModelMismatch: collecting exactly N remaining items was refused")?;
                                 self.arrs.push((a, want));
                             }
@@ -284,7 +299,9 @@ impl<E: Elem + Clone + Default> Pool<E> {
                                 } else {
                                     let boxed = rng.chance(1, 2);
                                     let hide = rng.chance(2, 3);
-                                    self.note("iter.collect_wrong", format!("(have={n},want={wrong},boxed={boxed},hide_hint={hide})"));
+                                    let mode = rng.below(4) as u8;
+                                    HINT_MODE.with(|m| m.set(mode));
+                                    self.note("iter.collect_wrong", format!("(have={n},want={wrong},boxed={boxed},hide_hint={hide},claim_mode={mode})"));
                                     let a = if hide {
                                         let v: Vec<E> = Vec::new();
                                         drop(v);
@@ -628,7 +645,9 @@ impl<E: Elem + Clone + Default> Pool<E> {
                         let n = if right { s.len() } else if s.len() == 0 || rng.chance(1, 2) { (s.len() + 1).min(MAXLEN) } else { s.len() - 1 };
                         let how = rng.below(4);
                         let hide = rng.chance(1, 2);
-                        self.note("from_vec", format!("(len={},n={n},how={how},hide_hint={})", s.len(), hide && how >= 2));
+                        let mode = rng.below(4) as u8;
+                        HINT_MODE.with(|m| m.set(mode));
+                        self.note("from_vec", format!("(len={},n={n},how={how},hide_hint={},claim_mode={mode})", s.len(), hide && how >= 2));
                         let r = match how {
                             0 => arr_try_from_vec(v, n),
                             1 => box_try_from_vec(v, n),
